@@ -1,8 +1,10 @@
 import FluteModel.Recv
 import FluteModel.Lemmas.RecvRun
 import FluteModel.Lemmas.RecvSkewState
+import FluteModel.Lemmas.RecvStrip
 import FluteModel.Lemmas.RecvToy
 import FluteModel.RecvMini
+import FluteModel.Lemmas.RecvMiniLaw
 /-
   C19 - FDT expiry: delivery only through an FDT instance unexpired on the sender's clock.
 
@@ -108,6 +110,18 @@ theorem check_disabled_ignores (I : ObjIface σ) (cfg : Config) (hc : cfg.expChe
     (fun _ _ => trivial) hrun
   intro e he
   exact (this e he).2
+
+/-- **check_disabled_ignores** (full strength: the clocks play no role at all).  With
+    `enable_fdt_expiration_check = false`, two histories that consist of the same datagrams, the same
+    parser answers and the same cleanups, but carry ARBITRARY, unrelated receiver times, panic at the
+    same call or not at all and produce exactly the same per-call results, attach decisions and writer
+    calls - whatever the `Expires` values, the EXT_TIME values and either clock are. -/
+theorem check_disabled_clock_independent (I : ObjIface σ) (cfg : Config) (hc : cfg.expCheck = false)
+    (ops ops' : List Op) (h : RetimedL ops ops') :
+    (run I (State.init cfg) ops).map (·.2) = (run I (State.init cfg) ops').map (·.2) :=
+  run_strip I ops ops' h (State.init cfg) (State.init cfg) rfl hc hc
+    (by constructor <;> (intro f hf; simp [State.init] at hf))
+    (by constructor <;> (intro f hf; simp [State.init] at hf))
 
 /-- **no_sct_uses_own_clock** (instance level): without an observed EXT_TIME the estimate of the
     sender clock is the receiver's own clock, so the instance is expired exactly when
@@ -235,5 +249,18 @@ example : ∀ op ∈ [Op.data (.pkt Ex.pF) (1791011000000000 + Ex.skew) (.ok Ex.
 
 /-- the contract `ObjIface.Law` of `expired_only_is_silent` is satisfiable -/
 example : Toy.iface.Law := Toy.law
+
+/-- ... and it is satisfied by the object `Mini` of the executable driver - the very model that is
+    compared with the real receiver on every run (proved in `Lemmas/RecvMiniLaw.lean`) -/
+example : Mini.iface.Law := Mini.law
+
+/-- `expired_only_is_silent` for the validated executable model, without any contract hypothesis -/
+theorem expired_only_is_silent_driver_model (cfg : Config) (ops : List Op)
+    (tr : List (Op × State Mini.Obj × Res × List Ev))
+    (hrun : runT Mini.iface (State.init cfg) ops = some tr) (toi : Nat)
+    (hexp : ∀ e ∈ tr, ∀ f ∈ e.2.1.fdtCurrent, f.Usable e.1.now →
+      ∀ inst, f.inst = some inst → inst.getFile toi = none) :
+    ∀ e ∈ tr, (∀ w, Ev.w toi w ∉ e.2.2.2) ∧ (∀ id, Ev.attach toi id ∉ e.2.2.2) :=
+  expired_only_is_silent Mini.iface Mini.law cfg ops tr hrun toi hexp
 
 end Flute.Props.C19
